@@ -543,7 +543,19 @@ def paths_case(ctx, g):
             route = "mem" if v["in_memory"] else "file"
             s = out.get("_obj")
             acc = hl.accepted_rows(s, ref.rows(0, route)[:, 0], v["opts"].get("n_linear_samples", 1)) if s is not None else None
-            results.append(dict(spec=v, route=route, acc=acc, out=out, calls=parent.calls, returned=out.get("returned")))
+            calls_first = list(parent.calls)
+            # the SAME call once more on the same TheJoker (its generator has advanced): "regardless of what the same sampler
+            # evaluated before" - the second call's accepted set must not depend on the path either
+            try:
+                out2 = hl.do_call(j, pr, v, lib=lib, path=path)
+                s2 = out2.get("_obj")
+                acc2 = hl.accepted_rows(s2, ref.rows(0, route)[:, 0], v["opts"].get("n_linear_samples", 1)) if s2 is not None else None
+                ret2 = out2.get("returned")
+            except RuntimeError:
+                acc2, ret2 = None, "RuntimeError"
+            if str(ret2 or "").startswith("RuntimeError"):
+                ret2 = "RuntimeError"
+            results.append(dict(spec=v, route=route, acc=acc, out=out, calls=calls_first, returned=out.get("returned"), acc2=acc2, returned2=ret2))
     inp = dict(base=base, N=N, seed=seed, internal_units=internal, problem=dict(p=pr.p, q=pr.q, K=pr.desc["K"]["kind"]))
     rel = "equal seeds => identical accepted prior samples on every path (Hist.accepted_set_path_independent)"
     r0 = results[0]
@@ -571,6 +583,20 @@ def paths_case(ctx, g):
                           f"path A accepted rows {r0['acc']}, path B accepted rows {r['acc']}",
                           tags=dict(entry=entry, route_a=r0["route"], route_b=r["route"], relation="accepted-set"))
             break
+    else:
+        rel_h = "equal seeds => identical accepted prior samples on every path, also for the SECOND call on the same TheJoker"
+        for r in results[1:]:
+            ctx.evaluated(rel_h, (entry, r["route"], r["spec"]["source"]) if r0["acc2"] else None)
+            ctx.count(f"paths-second-call:{entry}:{r['route']}")
+            if r["acc2"] != r0["acc2"] or r["returned2"] != r0["returned2"]:
+                cross = r["route"] != r0["route"]
+                ctx.violation(rel_h, g, dict(inp, path_a=r0["spec"], path_b=r["spec"]), dict(accepted_second_call=r["acc2"], returned=r["returned2"]),
+                              dict(accepted_second_call=r0["acc2"], returned=r0["returned2"]),
+                              "two TheJoker objects with equal seeds, each called twice the same way: the second calls must accept the same prior "
+                              f"samples on every path: path A {r0['acc2']}, path B {r['acc2']} (the first calls agreed)",
+                              tags=dict(entry=entry, route_a=r0["route"], route_b=r["route"], relation="accepted-set-second-call",
+                                        what="parent generator consumed differently in memory and through the cache" if cross else "same family"))
+                break
     # the rejection step itself against Hist.accepted on the recorded uniforms
     if entry == "rejection":
         rel2 = "accepted positions = Hist.accepted(lls, recorded uniforms)"
@@ -800,6 +826,8 @@ def post(ctx):
     ctx.require("non-trivial likelihood comparisons", c["lls-compared-nontrivial"], 500)
     ctx.require("accepted-set comparisons with 0 < accepted < evaluated", c["paths:nontrivial"], 12)
     ctx.require("in-memory vs cache accepted-set comparisons", c["paths:rejection:mem"] + c["paths:iterative:mem"], 2)
+    ctx.require("in-memory vs cache accepted-set comparisons of a second call on the same TheJoker",
+                c["paths-second-call:rejection:mem"] + c["paths-second-call:iterative:mem"], 2)
     ctx.require("iterative cases needing >= 2 rounds", c["paths:iterative-multi-round"], 2)
     ctx.require("same-name cache file re-written in other units between calls", c["rewrite:unit-change"], 4)
     ctx.require("sampler with log-probabilities on a re-written cache file", c["rewrite:sampler-after-rewrite"], 6)
